@@ -31,9 +31,11 @@ DisplayNamesUnique(f) == f.dupdisplay = 0
 NoReserved(f) == Names(f) \cap Reserved = {}
 Kind(f, n) == (CHOOSE c \in f.comps : c.name = n).kind
 Units(f, n) == (CHOOSE p \in f.pars : p.name = n).units
-RefsDefined(f) == /\ \A t \in f.trans : t[1] \in {c.name : c \in f.comps} /\ t[2] \in {c.name : c \in f.comps} /\ t[3] \in {p.name : p \in f.pars}
+\* (a transition <<from, to, ">">> is the parameter-less residual outflow of a junction)
+RefsDefined(f) == /\ \A t \in f.trans : t[1] \in {c.name : c \in f.comps} /\ t[2] \in {c.name : c \in f.comps} /\ t[3] \in ({p.name : p \in f.pars} \cup {">"})
                   /\ \A c \in f.characs : c.parts \subseteq ({x.name : x \in f.comps} \cup {x.name : x \in f.characs}) /\ (c.denom = "" \/ c.denom \in Names(f))
                   /\ \A p \in f.pars : p.deps \subseteq (Names(f) \cup {"t", "dt"} \cup f.extranames)
+ResidualOK(f) == \A t \in f.trans : t[3] = ">" => (t[1] \in {c.name : c \in f.comps} => Kind(f, t[1]) = "junction") /\ Cardinality({u \in f.trans : u[3] = ">" /\ u[1] = t[1]}) = 1
 LinkUnits(f) == \A t \in f.trans : (t[1] \in {c.name : c \in f.comps} /\ t[3] \in {p.name : p \in f.pars}) =>
                   /\ (Kind(f, t[1]) = "junction" <=> Units(f, t[3]) = "proportion")
                   /\ (Kind(f, t[1]) = "source" => Units(f, t[3]) = "number")
@@ -54,7 +56,7 @@ PBUnique(f) == f.pb.dupprogs = 0 /\ "all" \notin f.pb.progs
 PBTargets(f) == f.pb.untargeted = {}            \* every program targets at least one population and one compartment
 PBComplete(f) == f.pb.defects = {}              \* unit cost and spending for every program, a baseline wherever outcomes are given, one currency, a known coverage interaction, all sheets
 ValidPB(f) == PBRefs(f) /\ PBUnique(f) /\ PBTargets(f) /\ PBComplete(f)
-Valid(f) == ValidPB(f) /\ DataComplete(f) /\ CodeNamesUnique(f) /\ DisplayNamesUnique(f) /\ NoReserved(f) /\ RefsDefined(f) /\ LinkUnits(f) /\ NoCycles(f) /\ CallsListed(f) /\ CascadeNested(f) /\ Complete(f)
+Valid(f) == ResidualOK(f) /\ ValidPB(f) /\ DataComplete(f) /\ CodeNamesUnique(f) /\ DisplayNamesUnique(f) /\ NoReserved(f) /\ RefsDefined(f) /\ LinkUnits(f) /\ NoCycles(f) /\ CallsListed(f) /\ CascadeNested(f) /\ Complete(f)
 
 \* ---- mutations (each keeps everything else of the file) ----
 Par(n, u, d, c) == [name |-> n, units |-> u, deps |-> d, calls |-> c]
@@ -76,6 +78,8 @@ Mutate(f, m) ==
     [] m = "unsupported_call" -> [f EXCEPT !.pars = {IF p.name = "foi" THEN Par("foi", p.units, p.deps, p.calls \cup {"foo"}) ELSE p : p \in @}]
     [] m = "undefined_dependency" -> [f EXCEPT !.pars = {IF p.name = "foi" THEN Par("foi", p.units, p.deps \cup {"ghost"}, p.calls) ELSE p : p \in @}]
     [] m = "undefined_characteristic_component" -> [f EXCEPT !.characs = {IF c.name = "alive" THEN [c EXCEPT !.parts = @ \cup {"ghost"}] ELSE c : c \in @}]
+    [] m = "add_residual_outflow" -> [f EXCEPT !.trans = @ \cup {<<"jn", "sus", ">">>}]
+    [] m = "two_residual_outflows" -> [f EXCEPT !.trans = @ \cup {<<"jn", "sus", ">">>, <<"jn", "inf", ">">>}]
     [] m = "unnested_cascade" -> [f EXCEPT !.cascade = <<{"sus", "inf"}, {"inf", "rcv"}>>]
     [] m = "unnested_cascade_later_stage" -> [f EXCEPT !.cascade = <<{"sus", "inf", "rcv"}, {"inf"}, {"rcv"}>>]     \* the last stage is inside the first but not inside the preceding one
     [] m = "capitalised_units" -> f                           \* "Number", "Rate": the standard units are not case sensitive
@@ -86,7 +90,7 @@ Mutate(f, m) ==
     [] m = "delete_code_name_column" -> [f EXCEPT !.columns = @ \ {"compartments.code name"}]
     [] m = "blank_optional_column" -> f                       \* an optional column that is present but empty changes nothing
     [] m = "delete_optional_sheet" -> [f EXCEPT !.sheets = @ \ {"databook pages"}]
-    [] m \in {"databook_delete_table", "databook_unit_mismatch", "databook_unit_mismatch_compartment", "databook_blank_required_values", "databook_unknown_population", "databook_delete_state_sheet"} -> [f EXCEPT !.datadefects = @ \cup {m}]
+    [] m \in {"databook_delete_table", "databook_unit_mismatch", "databook_unit_mismatch_compartment", "databook_blank_required_values", "databook_unknown_population", "databook_missing_population_row", "databook_legacy_missing_population_row", "databook_delete_state_sheet"} -> [f EXCEPT !.datadefects = @ \cup {m}]
     \* ---- generic mutations, phrased over the anchors of the base (f.anch: a transition parameter tpar, two compartments c1 -> c2 without a
     \*      transition, a function parameter fpar, another parameter p2) so that they apply to library files as well as to the generated base
     [] m = "g_none" -> f
@@ -114,7 +118,7 @@ Mutate(f, m) ==
     [] m \in {"progbook_no_target_compartment", "progbook_no_target_population"} -> [f EXCEPT !.pb.untargeted = {"P1"}]
     [] m \in {"progbook_missing_unit_cost", "progbook_missing_spending", "progbook_outcome_without_baseline", "progbook_bad_coverage_interaction", "progbook_mixed_currencies",
               "progbook_delete_effects_sheet", "progbook_delete_spending_sheet", "progbook_interaction_program_without_outcome"} -> [f EXCEPT !.pb.defects = @ \cup {m}]
-Verdict(m) == IF m \in {"g_none", "g_add_output_parameter", "progbook_none", "progbook_lowercase_flags", "progbook_zero_outcome", "none", "add_output_parameter", "blank_optional_column", "delete_optional_sheet", "delete_transitions_sheet", "characteristic_on_unlisted_page", "capitalised_units"} THEN "accept" ELSE "reject"
+Verdict(m) == IF m \in {"add_residual_outflow", "g_none", "g_add_output_parameter", "progbook_none", "progbook_lowercase_flags", "progbook_zero_outcome", "none", "add_output_parameter", "blank_optional_column", "delete_optional_sheet", "delete_transitions_sheet", "characteristic_on_unlisted_page", "capitalised_units"} THEN "accept" ELSE "reject"
 
 Init == bi \in 1..Len(Bases) /\ mut = "" /\ obs = ""
 Applies(b, m) == b.id = "sirj" \/ m \in GenericMutations
